@@ -370,11 +370,11 @@ def r5_slave_failure(ck, cx):
 
 def run(ck, tier):
     cx = Ctx()
-    r1_r2_r3(ck, cx)
-    r1_coil_value(ck, cx)
-    r6_fc15_quantity(ck, cx)
-    r4_illegal_function(ck, cx)
-    r5_slave_failure(ck, cx)
+    ck.guard(r1_r2_r3, ck, cx)
+    ck.guard(r1_coil_value, ck, cx)
+    ck.guard(r6_fc15_quantity, ck, cx)
+    ck.guard(r4_illegal_function, ck, cx)
+    ck.guard(r5_slave_failure, ck, cx)
     ck.assume('address-range arithmetic inside the data blocks is decided by C18, not here')
     ck.assume('partial writes of a custom datastore that raises inside setValues are not decided')
     ck.assume('attribute <-> wire-field binding of the guarded quantities is decided by C01/C02')
